@@ -195,8 +195,10 @@ def audit(ctx):
     adir = os.path.join(paths.LEAN, ".lake", "audit")
     os.makedirs(adir, exist_ok=True)
     afile = os.path.join(adir, f"Audit{ctx.prop}_{os.getpid()}.lean")
+    with open(os.path.join(os.path.dirname(os.path.abspath(__file__)), "linkage.lean.tmpl")) as fh:
+        link_src = fh.read().replace("@PROP@", ctx.prop) if ctx.driver_ok else f"import NgVerif.Props.{ctx.prop}\n"
     with open(afile, "w") as fh:
-        fh.write(f"import NgVerif.Props.{ctx.prop}\n")
+        fh.write(link_src + "\n")
         for t in ctx.theorems:
             fh.write(f"#print axioms {t}\n")
     try:
@@ -224,7 +226,46 @@ def audit(ctx):
             ok += 1
     if p.returncode != 0 and ok < len(ctx.theorems):
         ctx.tie_breaks.append("audit:lean failed: " + first_errors(out, 6))
+    if ctx.driver_ok:
+        linkage_audit(ctx, out)
     ctx.discharged = ok + n_lemmas if ok == len(ctx.theorems) else ok
+
+
+def linkage_audit(ctx, out):
+    """Theorem <-> driver linkage: every model definition a property theorem is stated over must be one the compiled
+    driver executes (so that the correspondence run ties it to the code), or be listed in lean/linkage.json as a
+    specification-side definition; a theorem that mentions no executed model definition must be listed there as a
+    purely mathematical statement, with the reason."""
+    try:
+        with open(os.path.join(paths.LEAN, "linkage.json")) as f:
+            policy = json.load(f)
+    except (OSError, ValueError) as exc:
+        ctx.tie_breaks.append(f"linkage:lean/linkage.json unreadable: {exc}")
+        return
+    spec_only = policy.get("spec_only", {})
+    enforced = ctx.prop in policy.get("enforced_properties", [])
+    breaks = ctx.tie_breaks if enforced else ctx.notes
+    pure = policy.get("pure_math_theorems", {})
+    link = {}
+    for m in re.finditer(r"^LINK (\S+) exec=(.*?) \| notexec=(.*)$", out, flags=re.M):
+        link[m.group(1)] = (m.group(2).split(), m.group(3).split())
+    rep = {}
+    for t in ctx.theorems:
+        if t not in link:
+            breaks.append(f"linkage:theorem {t} not reported by the linkage audit")
+            continue
+        ex, ne = link[t]
+        stray = [d for d in ne if d not in spec_only]
+        for d in stray:
+            breaks.append(f"linkage:theorem {t} is stated over model definition {d}, which the driver never "
+                                  f"executes and lean/linkage.json does not list as specification-side")
+        code_side = [d for d in ex if not d.startswith("NgVerif.Generated.")]
+        if not code_side and t not in pure:
+            breaks.append(f"linkage:theorem {t} mentions no model definition executed by the driver and is not "
+                                  f"listed as a purely mathematical statement")
+        rep[t.split(".", 3)[-1]] = {"executed_by_driver": len(ex), "specification_side": ne,
+                                    **({"pure_math": pure[t]} if t in pure and not code_side else {})}
+    ctx.stats["theorem_driver_linkage"] = rep
 
 
 def prepare(ctx):
